@@ -61,7 +61,8 @@ class RoundTrip:
         L = 3 if tier == "quick" else 4
         res = JobResult(job=self.name, target=self.target, level="B", prop="C01", obligations=[], failures=[], crashed=None,
                         bound="strings: every string of length <= %d over %r (minus the documented exclusions) as scalar cell, first/last column, array element and header value; "
-                              "numeric kinds i2/i4/i8/f4/f8 scalar and [1..3]; string widths 1..6; 0..3 rows; 1..3 tables per file" % (L, ALPHA),
+                              "numeric kinds i2/i4/i8/f4/f8 scalar and [1..3]; string widths 1..6; 0..3 rows; 1..3 tables per file; 24 (quick) / 240 (thorough) random mixes of 2..4 columns "
+                              "of any kind and length whose names are case variants / prefixes / substrings of each other" % (L, ALPHA),
                         paths=0, solver_s=0.0, queries=0, native_runs=0, native_failures=[], vacuity=None,
                         assumptions=["bounded exhaustive enumeration on real temporary files", "known findings are excluded by the predicates recorded in known_findings.jsonl"])
         excl = {e["obligation"].split(":", 1)[1]: e for e in exclusions}
@@ -199,6 +200,42 @@ class RoundTrip:
                             bad("tables_names_order_rows", "tables %s" % par.tables(), dict(nrows=nrows, ntab=ntab))
                     except Exception as e:
                         bad("tables_names_order_rows", "raised %s: %s" % (type(e).__name__, e), dict(nrows=nrows, ntab=ntab))
+            # ---- any mix and order of column kinds; column names related to each other (case variants, prefixes, substrings) -----
+            import random as _random
+            rng = _random.Random(seed * 101 + 7)
+            kinds_pool = ["i2", "i4", "i8", "f4", "f8", "S1", "S6", "S10"]
+            related = [["z", "Z"], ["r", "R", "rr"], ["class", "CLASS", "subclass"], ["ra", "ra_err", "extra", "RA"], ["flux", "fluxes", "modelflux", "Flux"],
+                       ["id", "ID", "objid", "Id"], ["x", "x1", "x10", "X"]]
+            for rep in range(24 if tier == "quick" else 240):
+                count[0] += 1
+                names_ = list(rng.choice(related))
+                rng.shuffle(names_)
+                ncol = rng.randint(2, len(names_))
+                dt = []
+                for nm in names_[:ncol]:
+                    kd = rng.choice(kinds_pool)
+                    ln = rng.choice([0, 0, 1, 2, 5])
+                    dt.append((nm, kd) if ln == 0 else (nm, kd, (ln,)))
+                # two columns that differ only in case never get the same type, so a mixed-up lookup is visible
+                nrow = rng.randint(0, 3)
+                a = np.zeros((nrow,), dtype=dt)
+                for nm in a.dtype.names:
+                    base = a.dtype[nm].base
+                    flat = a[nm].reshape(-1)
+                    for q in range(flat.size):
+                        flat[q] = (("v%d" % rng.randint(0, 99))[:base.itemsize].encode() if base.kind == "S" else
+                                   rng.choice([0, 1, -1, 7, 123]) if base.kind == "i" else rng.choice([0.5, -1.25, 1 / 3, 1e30 if base.itemsize == 8 else 1e30 % 3e38]))
+                sname = rng.choice(["mystruct", "Related", "T1"])
+                try:
+                    par, text = _roundtrip(a, sname)
+                    t = par[sname.upper()]
+                    okc = list(par.columns(sname.upper())) == list(a.dtype.names) and len(t) == nrow
+                    for nm in a.dtype.names:
+                        okc = okc and t.dtype[nm] == a.dtype[nm] and _same_bits(t[nm], a[nm])
+                    if not okc:
+                        bad("mixed_columns_with_related_names", "columns %s: wrote dtype %s, read %s" % (list(a.dtype.names), a.dtype, t.dtype), dict(dtype=str(a.dtype), rows=nrow))
+                except Exception as e:
+                    bad("mixed_columns_with_related_names", "raised %s: %s (dtype %s)" % (type(e).__name__, e, a.dtype), dict(dtype=str(a.dtype), rows=nrow))
             # ---- header pairs ------------------------------------------------------------------------
             hdr_alpha = ["a", " ", "\t", ";", "{", "}", "\\", '"', "\x0c"]
             hv = [""]
@@ -276,7 +313,7 @@ class RoundTrip:
                 bad("enum_labels", "raised %s: %s" % (type(e).__name__, e), {})
             res["paths"] = res["native_runs"] = count[0]
             kinds = ["string_cell_first_column", "string_cell_last_column", "string_array_element", "numeric_bit_identical", "string_width_and_shape",
-                     "tables_names_order_rows", "header_value_text", "table_entry_points", "unsupported_kind_refused", "enum_labels"]
+                     "tables_names_order_rows", "mixed_columns_with_related_names", "header_value_text", "table_entry_points", "unsupported_kind_refused", "enum_labels"]
             for kd in kinds:
                 b = fails.get(kd, [])
                 d = dict(name="write_read_roundtrip:" + kd, path=0, status="unsat" if not b else "sat", secs=0.0, backend="native-exhaustive", size=0,
